@@ -173,12 +173,13 @@ pub mod c09;
 pub mod c10;
 pub mod c11;
 pub mod net;
+pub mod c14;
 pub mod c17;
 pub mod c18;
 pub mod c19;
 
 pub fn dispatch_all(name: &str, s: &mut ReplaySrc) -> bool {
-    c02::dispatch(name, s) || c03::dispatch(name, s) || c04::dispatch(name, s) || c07::dispatch(name, s) || c09::dispatch(name, s) || c10::dispatch(name, s) || c11::dispatch(name, s) || c17::dispatch(name, s) || c18::dispatch(name, s) || c19::dispatch(name, s)
+    c02::dispatch(name, s) || c03::dispatch(name, s) || c04::dispatch(name, s) || c07::dispatch(name, s) || c09::dispatch(name, s) || c10::dispatch(name, s) || c11::dispatch(name, s) || c14::dispatch(name, s) || c17::dispatch(name, s) || c18::dispatch(name, s) || c19::dispatch(name, s)
 }
 pub fn all_names() -> Vec<&'static str> {
     let mut v = Vec::new();
@@ -189,6 +190,7 @@ pub fn all_names() -> Vec<&'static str> {
     v.extend(c09::names());
     v.extend(c10::names());
     v.extend(c11::names());
+    v.extend(c14::names());
     v.extend(c17::names());
     v.extend(c18::names());
     v.extend(c19::names());
